@@ -20,9 +20,83 @@ func wkbGen(r *rand.Rand, n int, tier string, emit func(Case)) {
 	}
 }
 
+// reorderWKB rewrites little-endian WKB (as the library writes it on this machine) with a byte order chosen per
+// element by pick().  It is an independent walk of the format; the specification's reader checks its output.
+func reorderWKB(b []byte, pick func() bool) []byte {
+	out := []byte{}
+	pos := 0
+	u32 := func() uint32 {
+		v := uint32(b[pos]) | uint32(b[pos+1])<<8 | uint32(b[pos+2])<<16 | uint32(b[pos+3])<<24
+		pos += 4
+		return v
+	}
+	put32 := func(v uint32, le bool) {
+		if le {
+			out = append(out, byte(v), byte(v>>8), byte(v>>16), byte(v>>24))
+		} else {
+			out = append(out, byte(v>>24), byte(v>>16), byte(v>>8), byte(v))
+		}
+	}
+	put64 := func(le bool) {
+		for i := 0; i < 8; i++ {
+			if le {
+				out = append(out, b[pos+i])
+			} else {
+				out = append(out, b[pos+7-i])
+			}
+		}
+		pos += 8
+	}
+	var elem func()
+	elem = func() {
+		if b[pos] != 1 {
+			panic("reorderWKB: input is not little endian")
+		}
+		pos++
+		le := pick()
+		if le {
+			out = append(out, 1)
+		} else {
+			out = append(out, 0)
+		}
+		code := u32()
+		put32(code, le)
+		dim := map[uint32]int{0: 2, 1: 3, 2: 3, 3: 4}[code/1000]
+		seq := func() {
+			n := u32()
+			put32(n, le)
+			for i := 0; i < int(n)*dim; i++ {
+				put64(le)
+			}
+		}
+		switch code % 1000 {
+		case 1:
+			for i := 0; i < dim; i++ {
+				put64(le)
+			}
+		case 2:
+			seq()
+		case 3:
+			n := u32()
+			put32(n, le)
+			for i := 0; i < int(n); i++ {
+				seq()
+			}
+		default:
+			n := u32()
+			put32(n, le)
+			for i := 0; i < int(n); i++ {
+				elem()
+			}
+		}
+	}
+	elem()
+	return out
+}
+
 func wkbOnPanic(c Case) Event {
 	e := Event{"t": "Point", "ct": "XY", "c": []string{}}
-	return Event{"kind": c.str("kind"), "g": e, "bytes": []int{}, "dec": e, "decerr": "", "reenc": false, "append": false,
+	return Event{"kind": c.str("kind"), "g": e, "bytes": []int{}, "bytes2": []int{}, "dec2": e, "dec2err": "", "dec": e, "decerr": "", "reenc": false, "append": false,
 		"trail": false, "value": false, "valid": false, "scan": []bool{}, "scansame": false}
 }
 
@@ -91,6 +165,15 @@ func wkbExec(c Case) Event {
 		return ev
 	}
 	ev["dec"] = projectTree(dg)
+	pr := rand.New(rand.NewSource(int64(len(bs))*7919 + int64(bs[len(bs)-1])))
+	mode := pr.Intn(3) // all big endian, or mixed per element
+	bs2 := reorderWKB(bs, func() bool { return mode != 0 && pr.Intn(2) == 0 })
+	ev["bytes2"] = bytesInts(bs2)
+	if dg2, err := geom.UnmarshalWKB(bs2, geom.NoValidate{}); err != nil {
+		ev["dec2err"] = errStr(err)
+	} else {
+		ev["dec2"] = projectTree(dg2)
+	}
 	ev["reenc"] = bytes.Equal(dg.AsBinary(), bs)
 	prefix := []byte("prefix\x00\x01")
 	ev["append"] = bytes.Equal(g.AppendWKB(append([]byte{}, prefix...)), append(append([]byte{}, prefix...), bs...))
